@@ -51,7 +51,7 @@ struct Layout {
 };
 struct Written {
     std::string bytes;
-    struct ChunkOut { uint64_t start, end, data_page_offset; std::vector<std::pair<uint64_t, uint64_t>> page_bodies; bool has_minmax = false; std::string mn, mx; int64_t nulls = 0; int stats_mode = 0; };
+    struct ChunkOut { uint64_t start, end, data_page_offset; std::vector<std::pair<uint64_t, uint64_t>> page_bodies; bool has_minmax = false; std::string mn, mx, dmn, dmx; int64_t nulls = 0; int stats_mode = 0; };      // dmn/dmx: bounds in signed byte order (deprecated fields of byte-array columns)
     std::vector<ChunkOut> chunks;
     uint64_t footer_start = 0;
 };
@@ -196,9 +196,19 @@ static inline int effective_stats_mode(int mode, bool column_orders, int order, 
     if (!old_ok) return 1;
     return mode;
 }
-static inline TV stats_struct(int mode, bool has_mm, const std::string& mn, const std::string& mx, int64_t nulls) {
+// the deprecated min/max fields were "determined by signed comparison only" (parquet.thrift): for byte arrays that is the order of
+// their bytes read as signed chars - what parquet-mr up to 1.9 wrote. dmn/dmx (if given) are the bounds in that order.
+static inline int cmp_signed_bytes(const std::string& a, const std::string& b) {
+    size_t m = std::min(a.size(), b.size());
+    for (size_t i = 0; i < m; i++) { int x = (int8_t)a[i], y = (int8_t)b[i]; if (x != y) return x < y ? -1 : 1; }
+    return a.size() < b.size() ? -1 : a.size() > b.size();
+}
+static inline void signed_byte_bounds(const std::vector<std::string>& vals, size_t from, size_t to, std::string* mn, std::string* mx) {
+    for (size_t i = from; i < to; i++) { if (i == from || cmp_signed_bytes(vals[i], *mn) < 0) *mn = vals[i]; if (i == from || cmp_signed_bytes(vals[i], *mx) > 0) *mx = vals[i]; }
+}
+static inline TV stats_struct(int mode, bool has_mm, const std::string& mn, const std::string& mx, int64_t nulls, const std::string* dmn = nullptr, const std::string* dmx = nullptr) {
     TV s = TV::Struct();
-    if (has_mm && (mode == 2 || mode == 3)) { s.add(1, TV::Bin(mx)); s.add(2, TV::Bin(mn)); }
+    if (has_mm && (mode == 2 || mode == 3)) { s.add(1, TV::Bin(dmx ? *dmx : mx)); s.add(2, TV::Bin(dmn ? *dmn : mn)); }
     s.add(3, TV::I64(nulls));
     if (has_mm && (mode == 1 || mode == 3)) { s.add(5, TV::Bin(mx)); s.add(6, TV::Bin(mn)); }
     return s;
@@ -326,7 +336,7 @@ static inline Written write_file(const Table& t, const Layout& lay) {
                     int lvl_tag = legacy_bitpacked ? 4 : 3;
                     H.add(1, TV::I32(0));
                     TV DH = TV::Struct(); DH.add(1, TV::I32((int64_t)pe)); DH.add(2, TV::I32(enc)); DH.add(3, TV::I32(lvl_tag)); DH.add(4, TV::I32(lvl_tag));
-                    if (L.page_stats) { std::string mn, mx; bool mm = min_max(col.type, ch.vals, v0, v1, &mn, &mx, 0, &col); if (mm && mn.size() + mx.size() > 1200) mm = false; int em = effective_stats_mode(L.chunk_stats ? L.chunk_stats : 1, lay.column_orders, col.order, &mm); DH.add(5, stats_struct(em, mm, mn, mx, (int64_t)(pe - nn))); }      // the deprecated min/max fields are defined for the signed order only
+                    if (L.page_stats) { std::string mn, mx; bool mm = min_max(col.type, ch.vals, v0, v1, &mn, &mx, 0, &col); if (mm && mn.size() + mx.size() > 1200) mm = false; int em = effective_stats_mode(L.chunk_stats ? L.chunk_stats : 1, lay.column_orders, col.order, &mm); std::string dmn, dmx; bool bytes = col.type == T_BA || col.type == T_FLBA; if (mm && bytes) signed_byte_bounds(ch.vals, v0, v1, &dmn, &dmx); DH.add(5, stats_struct(em, mm, mn, mx, (int64_t)(pe - nn), bytes ? &dmn : nullptr, bytes ? &dmx : nullptr)); }      // the deprecated min/max fields are defined for the signed order only
                     if (lay.junk_fields && r.below(4) == 0) add_junk(DH, r);
                     H.add(5, DH);
                     if (lay.junk_fields && r.below(4) == 0) add_junk(H, r);
@@ -351,7 +361,7 @@ static inline Written write_file(const Table& t, const Layout& lay) {
             // without dictionary_page_offset the chunk is located by data_page_offset, which then points at its first page (the dictionary page)
             M.add(9, TV::I64((int64_t)((use_dict && !L.dict_offset_present) ? co.start : co.data_page_offset)));
             if (use_dict && L.dict_offset_present) M.add(11, TV::I64((int64_t)co.start));
-            if (L.chunk_stats) { int em = effective_stats_mode(L.chunk_stats, lay.column_orders, col.order, &co.has_minmax); co.stats_mode = em; M.add(12, stats_struct(em, co.has_minmax, co.mn, co.mx, co.nulls)); }
+            if (L.chunk_stats) { int em = effective_stats_mode(L.chunk_stats, lay.column_orders, col.order, &co.has_minmax); co.stats_mode = em; bool bytes = col.type == T_BA || col.type == T_FLBA; if (co.has_minmax && bytes) signed_byte_bounds(ch.vals, 0, ch.vals.size(), &co.dmn, &co.dmx); M.add(12, stats_struct(em, co.has_minmax, co.mn, co.mx, co.nulls, bytes ? &co.dmn : nullptr, bytes ? &co.dmx : nullptr)); }
             if (lay.junk_fields && r.below(3) == 0) add_junk(M, r);
             TV CC = TV::Struct();
             CC.add(2, TV::I64(L.file_offset_mode == 0 ? 0 : L.file_offset_mode == 1 ? (int64_t)co.start : (int64_t)co.end));
